@@ -658,7 +658,7 @@ func runAudit(verif string, seed int) map[string]interface{} {
 		}
 	}
 	res := map[string]interface{}{"passed": err == nil, "tests": tests,
-		"what": "go test in /verif/audit: Cookie.String length formula, base64 round trip/alphabet, Split/SplitN/IndexAny/LastIndexByte/IndexRune bounds, quoted cookie-name regexp axiom, http.Header Del/Add/Set model"}
+		"what": "go test in /verif/audit: Cookie.String length formula, base64 round trip/alphabet, Split/SplitN/IndexAny/LastIndexByte/IndexRune bounds, exact strings.LastIndex model, http.Header Del/Add/Set model"}
 	if err != nil {
 		res["output"] = firstLines(text, 20)
 	}
